@@ -62,7 +62,8 @@ def plan(tier, seed):
         _CELLS = cells()
     # failsweep: EVERY 16-bit Thumb word, and a sweep of the 32-bit Thumb space, executed in an IT slot whose condition fails: nothing may happen
     fs = lambda n16, rep32: ([{'k': 'failsweep16', 'slice': i, 'of': 64, 'ctx': c} for c in range(n16) for i in range(64)] +
-                             [{'k': 'failsweep32', 'slice': i, 'rep': rep32} for i in range(0, 384, 8)])
+                             [{'k': 'failsweep32', 'slice': i, 'rep': rep32} for i in range(0, 384, 8)] +
+                             [{'k': 'failsweepC', 'slice': i, 'of': 8} for i in range(8)])           # the example words of every Thumb opcode class (sim/classwords.json)
     if tier == 'quick':
         return [{'c': i, 'rep': 0} for i in range(len(_CELLS))] + [{'c': i, 'rep': 1} for i in range(len(_CELLS))] + fs(1, 48)
     items = fs(6, 512)
@@ -162,6 +163,9 @@ def gen_failsweep(item, rng):
     if item['k'] == 'failsweep16':
         n = 65536 // item['of']
         words = [(h << 16) | 0xBF00 for h in range(item['slice'] * n, item['slice'] * n + n)]
+    elif item['k'] == 'failsweepC':
+        allw = [w for isa, ws in G.census()['T'] if isa == 'T32' for w in ws]
+        words = allw[item['slice']::item['of']]
     else:
         words = []
         for hi in range(item['slice'], item['slice'] + 8):
@@ -193,6 +197,11 @@ class FailObserver:
             else:
                 b.cover.add('~failsweep-und')
             return
+        if site == 'EnterxLeavex':
+            # ENTERX / LEAVEX are UNPREDICTABLE inside an IT block (ARM ARM A9.3.1: 'if InITBlock() then UNPREDICTABLE'): nothing to assert.
+            # (The seed-1 sweep never drew a word of this class; seeds 31 and 32 did - 0xf3bfa21d - and the check raised a false alarm.)
+            b.cover.add('~failsweep-unpredictable-in-it')
+            return
         if (pre[1] ^ post[1]) & ~0x0600FC00 or pre[2:] != post[2:] or any(x != y for i, (x, y) in enumerate(zip(pre[0], post[0])) if M.RNAMES[i] != 'PC'):
             chg = [M.RNAMES[i] for i, (x, y) in enumerate(zip(pre[0], post[0])) if x != y and M.RNAMES[i] != 'PC']
             b.violate('it.effect', site, 'failed_condition_took_effect', '%s (word %#x) under failing condition %d (NZCV %x, ITSTATE %#x): changed %s cpsr %#x -> %#x' % (
@@ -219,7 +228,7 @@ def run_failsweep(case):
 
 def gen(item, rng, tier):
     global _CELLS
-    if item.get('k') in ('failsweep16', 'failsweep32'):
+    if item.get('k') in ('failsweep16', 'failsweep32', 'failsweepC'):
         return gen_failsweep(item, rng)
     if _CELLS is None:
         _CELLS = cells()
@@ -399,7 +408,7 @@ def gen(item, rng, tier):
     mpu = [(0, 0, 0)] * 12
     mpu[0] = (1 | 31 << 1, 0, 3 << 8)
     mpu[5] = (1 | 4 << 1, DENY, 0) if kind == 'dabt' else (0, DENY, 0)
-    extra = dict(G.mpu_sys(mpu))
+    extra = dict(G.mpu_sys(mpu, nu=rng.getrandbits(1)))
     ee = int(rng.random() < 0.3)
     st = P.main_state(rng, cfg, mode, 1, te, extra, e=e_main, ee=ee)
     st['sys']['sctlr'] = G.sctlr_value(m=1, a=0, u=1, te=te, v=0, br=1, ee=ee)
@@ -439,6 +448,9 @@ def gen(item, rng, tier):
         events.append({'tick': len(prologue) + pos, 'core': 0, 'kind': kind})
         if rng.random() < 0.25:
             events.append({'tick': len(prologue) + pos + rng.randrange(1, 6), 'core': 0, 'kind': 'fiq' if kind == 'irq' else 'irq'})
+        if rets[kind] == 'spsr_nest':
+            # the same line again while the (re-entrant) handler runs: delivered in its interrupt-enabled window, into the same mode
+            events.append({'tick': len(prologue) + pos + rng.randrange(2, hinfo[kind][2] + 2), 'core': 0, 'kind': kind})
     elif special is not None:
         pos = special + 1
     hl = sum(v[2] for v in hinfo.values())
